@@ -564,6 +564,24 @@ def json_docs(tier):
     return out
 
 
+def wide_dup_docs(tier):
+    """Objects with more than 16 fields and one repeated key (k0..k(n-1): many keys share length, first and last
+    character), the duplicate at the end / right after the original / midway, bare and inside an array. jq's two
+    routes must agree on them (both collapse to first position, last value); the streaming printer decides with a
+    duplicate-key probe that works differently for small and for wide objects."""
+    out = []
+    for n in ((17, 21) if tier == "quick" else (15, 16, 17, 18, 21, 33, 40)):
+        for i in range(n):
+            for j in ([n] if tier == "quick" else sorted({i + 1, (i + n) // 2 + 1, n})):
+                items = [("k%d" % x, x) for x in range(n)]
+                items.insert(j, ("k%d" % i, 999))
+                body = "{" + ",".join('"%s":%d' % kv for kv in items) + "}"
+                out.append(body.encode())
+                if i % 7 == 0:
+                    out.append(('[%s,{"a":1}]' % body).encode())
+    return out
+
+
 def run(ctx):
     tier = ctx["tier"]
     rep = batch.Report()
@@ -572,6 +590,7 @@ def run(ctx):
     ydocs = [d[0] for d in (cligen.ycorpus(tier, strs=cligen.YSTR_QUICK[:19], keys=cligen.YKEYS_QUICK[:15]) if tier == "quick" else cligen.ycorpus(tier))]
     items = [("yq", d, "") for d in ydocs] + [("yq", d, "dupkeys") for d, _ in cligen.YDUP] + [("jq", d, "") for d in json_docs(tier)]
     items += [("jq", d, "dupkeys") for d in (b'{"a":1,"a":2}', b'{"k":{"j":1,"j":2},"a":3,"k":4}', b'[{"a":1,"a":2},{"k":1,"k":[2]}]')]
+    items += [("jq", d, "dupkeys") for d in wide_dup_docs(tier)]
     parts = cligen.shard_run(work, items, nshards=min(len(items), 64))
     fails, info, jobsample = cligen.merge_parts(rep, parts)
     for name in rep.subspaces:
